@@ -124,7 +124,8 @@ theorem nilOps_place_good (m : Meta) (ch : Bytes) (hk : m.kind ≠ .socket ∧ m
 /-- one entry of a good listing through the unpack loop: the same record goes into both buckets -/
 theorem unpackEntry_good (mu mg : Nat) (e : FsEntry) (hg : GoodEntry e) (h : TarHdr)
     (h1 : metaToTarHdr e.m e.chash = some h) (B : Bucket) (D : List RelPath)
-    (hfresh : B.has e.m = false) (hpar : ∀ p ∈ e.m.name.splitParent, D.contains p = true) :
+    (hfresh : B.has e.m = false) (htwin : B.has (twinOf e.m) = false)
+    (hpar : ∀ p ∈ e.m.name.splitParent, D.contains p = true) :
     unpackEntry nilOps mu mg losslessUnpack h ⟨(), B, B, D⟩ =
       .ok ⟨(), B ++ [recOf e], B ++ [recOf e], if e.m.kind = .dir then e.m.name :: D else D⟩ := by
   obtain ⟨rt, hch, hbo⟩ := tarHdr_roundtrip e hg h h1
@@ -133,6 +134,7 @@ theorem unpackEntry_good (mu mg : Nat) (e : FsEntry) (hg : GoodEntry e) (h : Tar
   simp only
   rw [if_neg (by rw [hg.notUp]; exact fun e => by cases e)]
   rw [if_neg (by rw [hfresh]; exact fun e => by cases e.2)]
+  rw [if_neg (by rw [htwin]; exact fun e => by cases e)]
   rw [conjure_known nilOps mu mg losslessUnpack _ ⟨(), B, B, D⟩ hpar]
   simp only
   rw [applyUnpackFilter_lossless]
@@ -152,11 +154,13 @@ end Rio
 
 namespace Rio
 
-/-- a listing of a fileset as the walk delivers it: every entry within the format's domain, no path twice, every
+/-- a listing of a fileset as the walk delivers it: every entry within the format's domain, no path twice (neither as the same kind of
+    record nor as directory-and-something-else), every
     entry's parent directories listed (as directories) before it.  `B` / `D`: the records and directories so far. -/
 def ListingOK : List FsEntry → Bucket → List RelPath → Prop
   | [], _, _ => True
-  | e :: es, B, D => GoodEntry e ∧ B.has e.m = false ∧ (∀ p ∈ e.m.name.splitParent, D.contains p = true) ∧
+  | e :: es, B, D => GoodEntry e ∧ B.has e.m = false ∧ B.has (twinOf e.m) = false ∧
+      (∀ p ∈ e.m.name.splitParent, D.contains p = true) ∧
       ListingOK es (B ++ [recOf e]) (if e.m.kind = .dir then e.m.name :: D else D)
 
 /-- the headers the pack writes for a listing -/
@@ -167,7 +171,7 @@ theorem entries_good (mu mg : Nat) : ∀ (es : List FsEntry) (B : Bucket) (D : L
     ∃ D', unpackEntries nilOps mu mg losslessUnpack (hdrsOf es) ⟨(), B, B, D⟩ = .ok ⟨(), B ++ es.map recOf, B ++ es.map recOf, D'⟩
   | [], B, D, _ => by simp [packEntries, hdrsOf, unpackEntries]
   | e :: es, B, D, h => by
-    obtain ⟨hg, hfresh, hpar, hrest⟩ := h
+    obtain ⟨hg, hfresh, htwin, hpar, hrest⟩ := h
     obtain ⟨hd, hh⟩ := metaToTarHdr_some e hg
     obtain ⟨ih1, D', ih2⟩ := entries_good mu mg es _ _ hrest
     constructor
@@ -177,7 +181,7 @@ theorem entries_good (mu mg : Nat) : ∀ (es : List FsEntry) (B : Bucket) (D : L
       simp
     · refine ⟨D', ?_⟩
       have : hdrsOf (e :: es) = hd :: hdrsOf es := by simp [hdrsOf, hh]
-      rw [this, unpackEntries, unpackEntry_good mu mg e hg hd hh B D hfresh hpar]
+      rw [this, unpackEntries, unpackEntry_good mu mg e hg hd hh B D hfresh htwin hpar]
       simp only
       rw [ih2]
       simp
